@@ -80,4 +80,39 @@ theorem init_order_independent (ext : Ext) (g1 g2 : Genesis) (st1 st2 : Store)
 theorem replay_deterministic (ext : Ext) (cfg : Cfg) (w1 w2 : World) (h1 h2 : History) (hw : w1 = w2) (hh : h1 = h2) :
     run ext cfg w1 h1 = run ext cfg w2 h2 := by subst hw; subst hh; rfl
 
+/-! ### discarded branches: simulations, CheckTx, messages of a transaction that fails later -/
+
+/-- a step of a node's life: a transaction that is delivered (and committed iff it succeeds), or one that is run on a
+    branch which is thrown away whatever the outcome. -/
+inductive Step where
+  | deliver (faults : List Bool) (m : Msg)
+  | simulate (faults : List Bool) (m : Msg)
+
+/-- what a simulation reports: the outcome the delivery would have. -/
+def simulate (ext : Ext) (cfg : Cfg) (w : World) (f : List Bool) (m : Msg) : TxResult := (deliver ext cfg w f m).2
+
+def stepWorld (ext : Ext) (cfg : Cfg) (w : World) : Step → World
+  | .deliver f m => (deliver ext cfg w f m).1
+  | .simulate _ _ => w
+
+def delivered : List Step → History
+  | [] => []
+  | .deliver f m :: rest => (f, m) :: delivered rest
+  | .simulate _ _ :: rest => delivered rest
+
+/-- **No result depends on what was merely simulated**: the state after any interleaving of deliveries and discarded
+    runs is the state after the deliveries alone — so every later response, event and query answer is too. -/
+theorem simulations_leave_no_trace (ext : Ext) (cfg : Cfg) (steps : List Step) (w : World) :
+    steps.foldl (stepWorld ext cfg) w = runState ext cfg w (delivered steps) := by
+  induction steps generalizing w with
+  | nil => rfl
+  | cons s rest ih =>
+    cases s with
+    | deliver f m => simp only [List.foldl_cons, stepWorld, delivered, runState_cons]; exact ih _
+    | simulate f m => simp only [List.foldl_cons, stepWorld, delivered]; exact ih _
+
+/-- … and a simulation predicts the delivery that follows it exactly. -/
+theorem simulation_predicts (ext : Ext) (cfg : Cfg) (w : World) (f : List Bool) (m : Msg) :
+    simulate ext cfg w f m = (deliver ext cfg (stepWorld ext cfg w (.simulate f m)) f m).2 := rfl
+
 end Cctp.C18
